@@ -3101,6 +3101,12 @@ func (dsc *dataStoreCommand) sort(sourceKeyName, byPattern, destKeyName string, 
 	} else {
 		sk, objExists := dsc.getKeyObjectUnlocked(sourceKeyName)
 		if !objExists {
+			if destKeyName != "" {
+				// nothing to store: the destination is deleted
+				dsc.ds.data.remove(destKeyName)
+				output.data = respInt(0)
+				return
+			}
 			output = nativeValueToResp([]any{})
 			return
 		}
@@ -3144,7 +3150,8 @@ func (dsc *dataStoreCommand) sort(sourceKeyName, byPattern, destKeyName string, 
 				pat := strings.Replace(byPattern, "*", val.data, 1)
 				byVal, byValExists := dsc.getKeyUnlocked(pat)
 				if byValExists != VALUE_EXISTS {
-					val.sortByStr = "0"
+					// a missing weight sorts first (ALPHA) / counts as 0
+					val.sortByStr = ""
 					val.sortByFloat = 0
 				} else {
 					val.sortByStr = byVal
@@ -3168,24 +3175,36 @@ func (dsc *dataStoreCommand) sort(sourceKeyName, byPattern, destKeyName string, 
 			if !desc {
 				// asc alpha
 				sort.Slice(vals, func(i, j int) bool {
-					return vals[i].sortByStr < vals[j].sortByStr
+					if vals[i].sortByStr != vals[j].sortByStr {
+						return vals[i].sortByStr < vals[j].sortByStr
+					}
+					return vals[i].data < vals[j].data
 				})
 			} else {
 				// desc alpha
 				sort.Slice(vals, func(i, j int) bool {
-					return vals[j].sortByStr < vals[i].sortByStr
+					if vals[i].sortByStr != vals[j].sortByStr {
+						return vals[j].sortByStr < vals[i].sortByStr
+					}
+					return vals[j].data < vals[i].data
 				})
 			}
 		} else {
 			if !desc {
 				// asc numeric
 				sort.Slice(vals, func(i, j int) bool {
-					return vals[i].sortByFloat < vals[j].sortByFloat
+					if vals[i].sortByFloat != vals[j].sortByFloat {
+						return vals[i].sortByFloat < vals[j].sortByFloat
+					}
+					return vals[i].data < vals[j].data
 				})
 			} else {
 				// desc numeric
 				sort.Slice(vals, func(i, j int) bool {
-					return vals[j].sortByFloat < vals[i].sortByFloat
+					if vals[i].sortByFloat != vals[j].sortByFloat {
+						return vals[j].sortByFloat < vals[i].sortByFloat
+					}
+					return vals[j].data < vals[i].data
 				})
 			}
 		}
@@ -3245,6 +3264,12 @@ func (dsc *dataStoreCommand) sort(sourceKeyName, byPattern, destKeyName string, 
 	}
 
 	if destKeyName != "" {
+		// the result replaces whatever the destination holds; an empty result deletes it
+		dsc.ds.data.remove(destKeyName)
+		if len(a) == 0 {
+			output.data = respInt(0)
+			return
+		}
 		list := dsc.newListUnlocked(destKeyName)
 
 		for _, element := range a {
